@@ -541,6 +541,7 @@ class EngineWorld:
         self.quiescent_hooks: list = []
         self.after_tick_hooks: list = []
         self.states: set = set()
+        self.handlers: dict = {}       # run id -> (WorkflowHandler, workflow) of the runs the drivers started
         self.wait_calls: list[dict] = []
         self.parent_of: dict[int, Any] = {}
         self.dead_runs: dict[str, int] = {}
@@ -901,6 +902,7 @@ class EngineWorld:
         _CURRENT_WORLD[0] = None
         self.loop.drain_and_close()
         self.live_runners.clear()
+        self.handlers.clear()
         self.publish_hooks.clear()
         self.tick_hooks.clear()
         self.after_tick_hooks.clear()
@@ -989,6 +991,7 @@ async def drive_standard(world: EngineWorld, spec: dict, *, extra=None) -> dict:
     start = EV.Start0(uid=world.uid())
     world.trace.log("emit", uid=start.uid, ev="Start0", by="ext", via="start", target=None, parent=-1, inv=0)
     handler = wf.run(start_event=start, run_id="run1")
+    world.handlers["run1"] = (handler, wf)
     world.trace.log("run-start", run="run1")
     consumer = asyncio.ensure_future(world.consume(handler))
     tasks = []
@@ -1050,6 +1053,7 @@ async def drive_resume(world: EngineWorld, spec: dict, *, extra=None) -> dict:
     start = EV.Start0(uid=world.uid())
     world.trace.log("emit", uid=start.uid, ev="Start0", by="ext", via="start", target=None, parent=-1, inv=0)
     handler = wf.run(start_event=start, run_id="run1")
+    world.handlers["run1"] = (handler, wf)
     world.trace.log("run-start", run="run1")
     consumer1 = asyncio.ensure_future(world.consume(handler, "c1"))
     tasks: list = []
@@ -1058,7 +1062,23 @@ async def drive_resume(world: EngineWorld, spec: dict, *, extra=None) -> dict:
     # snapshot instant: after d seconds of virtual time (grid sum), or at first quiescence
     d = sum(world.tape.choice(world.cfg["grid"], "snap.at") for _ in range(world.tape.rng_int(1, 3, "snap.n")))
     outcome: dict[str, Any] = {"handler": handler, "wf": wf}
-    if d:
+    if d and world.cfg.get("checkpoints"):
+        # a periodic checkpointer: the same live context is serialized every second before the snapshot that is actually resumed
+        q = world.loop.quiesce()
+        for _ in range(int(d)):
+            sl = asyncio.ensure_future(asyncio.sleep(1))
+            await asyncio.wait([sl, q, handler._result_task], return_when=asyncio.FIRST_COMPLETED)
+            if not sl.done():
+                sl.cancel()
+                break
+            if handler.is_done() or "run1" in world.terminal_runs:
+                break
+            try:
+                handler.ctx.to_dict()
+                world.probe("earlier-checkpoint-of-same-context")
+            except BaseException as e:  # noqa: BLE001
+                world.trace.log("checkpoint-error", exc=type(e).__name__, msg=str(e)[:200])
+    elif d:
         sl = asyncio.ensure_future(asyncio.sleep(d))
         q = world.loop.quiesce()
         await asyncio.wait([sl, q, handler._result_task], return_when=asyncio.FIRST_COMPLETED)
@@ -1095,6 +1115,7 @@ async def drive_resume(world: EngineWorld, spec: dict, *, extra=None) -> dict:
     wf2 = build_workflow(spec, world)
     ctx2 = Context.from_dict(wf2, js)
     handler2 = wf2.run(ctx=ctx2, run_id="run2")
+    world.handlers["run2"] = (handler2, wf2)
     world.trace.log("run-start", run="run2", resumed=True)
     if world.cfg.get("p_double_resume") and world.tape.chance(world.cfg["p_double_resume"], 100, "double-resume?"):
         # "persist as soon as the run is (re)started": a second snapshot is taken right after the resume, before the new control
@@ -1113,6 +1134,7 @@ async def drive_resume(world: EngineWorld, spec: dict, *, extra=None) -> dict:
             await asyncio.sleep(0)
             wf2 = build_workflow(spec, world)
             handler2 = wf2.run(ctx=Context.from_dict(wf2, js2), run_id="run3")
+            world.handlers["run3"] = (handler2, wf2)
             world.trace.log("run-start", run="run3", resumed=True)
     outcome["resumed"] = True
     outcome["handler"] = handler2
